@@ -34,6 +34,15 @@ if TYPE_CHECKING:
     from ..distributions import MeasurementOutcomeDistribution
 
 
+def _squared_distances(x_i: np.ndarray, y_j: np.ndarray) -> np.ndarray:
+    # Differences are taken on Python integers: outcomes of 32 or more bits overflow
+    # int64 when squared, outcomes of 64 or more bits do not fit a machine integer.
+    differences = np.asarray(x_i).astype(object)[:, None] - np.asarray(y_j).astype(
+        object
+    )[None, :]
+    return np.abs(differences.astype(float)) ** 2
+
+
 def compute_rbf_kernel(x_i: np.ndarray, y_j: np.ndarray, sigma: float) -> np.ndarray:
     """Compute the gaussian (RBF) kernel matrix.
 
@@ -48,7 +57,7 @@ def compute_rbf_kernel(x_i: np.ndarray, y_j: np.ndarray, sigma: float) -> np.nda
     Returns:
         np.ndarray: The gaussian kernel matrix.
     """
-    exponent = np.abs(x_i[:, None] - y_j[None, :]) ** 2
+    exponent = _squared_distances(x_i, y_j)
     try:
         gamma = 1.0 / (2 * sigma)
     except ZeroDivisionError as error:
@@ -75,7 +84,7 @@ def compute_multi_rbf_kernel(
     Returns:
         np.ndarray: The gaussian kernel matrix.
     """
-    exponent = np.abs(x_i[:, None] - y_j[None, :]) ** 2
+    exponent = _squared_distances(x_i, y_j)
     kernel_matrix = np.zeros(exponent.shape)
     for sigma in sigmas:
         try:
